@@ -15,6 +15,9 @@ WORDS = ["true", "false", "null", "True", "None", "nan", "NaN", "inf", "-inf", "
          "[]", "{}", '""', '"a"', "[1]", '{"a": 1}', '"a', 'a"', "[a", "{a", "1.0", "-0", "+1", " 1", "1 ", "\t1", "\n",
          "a\nb", "é", "a=b", "=", "1,2", "٣.٥", "１"]
 LEAVES = [None, True, False, 0, 1, -1, 10**20, 1.0, -0.5, 1e22, 1e-7, float("inf"), "", "a", "1", "true", "[", '"', "a b"]
+# integers around every power of two / ten boundary a float-based parser would round (2**53 +- 1, 2**63 - 1, 2**64, 10**400 ...), both signs
+BIG_INTS = sorted({sgn * (b ** e + d) for b, es in ((2, (24, 31, 32, 52, 53, 54, 63, 64, 100, 1024)), (10, (15, 16, 17, 18, 19, 22, 23, 308, 309, 400))) for e in es
+                   for d in (-1, 0, 1) for sgn in (1, -1)} | {1695368699123456789})
 
 
 def typed_eq(a, b) -> bool:
@@ -50,6 +53,8 @@ def enum_values(tier: str):
     strs += WORDS
     vals = list(strs)
     vals += LEAVES
+    vals += BIG_INTS
+    vals += [str(i) for i in BIG_INTS[:: 7]]  # the same digits as STRINGS must stay strings
     # depth 1 and 2 JSON containers
     d1 = []
     for k in range(0, 3):
